@@ -1,7 +1,9 @@
 (* C10 proofs, part 6: the diff reported on commit applies, for every batch
    outside the three known defect classes (good_history, decidable). *)
 From Coq Require Import NArith List Bool Lia.
+From Coq Require Import ZArith ZifyN ZifyBool.
 From DV Require Import Base.Outcome C10.Gen C10.Model C10.Proofs3.
+From DV Require C17.Gen C17.Model C17.Proofs.
 Import ListNotations.
 Local Open Scope N_scope.
 
@@ -413,7 +415,7 @@ Proof.
   { unfold pub_ok in Hok. apply andb_prop in Hok as [_ H0].
     destruct (s_get 0 pub) as [[to [|so [|? ?]]]|]; try discriminate. eauto. }
   destruct P0 as [to [so P0]]. rewrite P0 in L.
-  destruct ((soa_serial so =? soa_serial s) || (soa_serial s <? soa_serial so)); [discriminate|].
+  destruct (serial_range_invalid (soa_serial so) (soa_serial s)); [discriminate|].
   inversion L; subst rem add. clear L.
   destruct (N.eq_dec k 0) as [->|Hk].
   - (* the SOA: old one removed, new one added *)
@@ -450,4 +452,32 @@ Example known_classes_not_good :
                [DDeleteAll; DAdd 1 0 3600; DAdd 1 1 3600; DFinish 52 3600] = false /\
   good_history [(0, (3600, [50])); (1, (900, [9])); (2, (300, [5]))]
                [DDeleteAll; DAdd 2 5 300; DFinish 52 3600] = false.
+Proof. vm_compute. repeat split; reflexivity. Qed.
+
+(* ---- the serial range check of InMemoryZoneDiff::new is in RFC 1982 order
+   (C17's closed form of Serial::partial_cmp), not in integer order ---- *)
+Ltac Zify.zify_post_hook ::= Z.div_mod_to_equations.
+
+Theorem serial_range_invalid_spec s e :
+  s < 4294967296 -> e < 4294967296 ->
+  (serial_range_invalid s e = false <->
+   let d := (e + 4294967296 - s) mod 4294967296 in 0 < d /\ d <= 2147483648).
+Proof.
+  intros Hs He. unfold serial_range_invalid.
+  rewrite (C17.Proofs.cmp_closed_form e s He Hs).
+  unfold C17.Model.classify, C17.Model.wdiff, C17.Model.M32. cbv zeta.
+  destruct (N.eqb_spec s e).
+  - subst. cbn [orb]. split; [discriminate|]. intros [H _].
+    replace ((e + 4294967296 - e) mod 4294967296) with 0 in H by lia. lia.
+  - cbn [orb].
+    destruct (N.eqb_spec ((s + 4294967296 - e) mod 4294967296) 0); [lia|].
+    destruct (N.ltb_spec ((s + 4294967296 - e) mod 4294967296) 2147483648).
+    + split; [discriminate|]. intros [H1 H2]. lia.
+    + split; [intros _; lia|intros _].
+      destruct (N.eqb_spec ((s + 4294967296 - e) mod 4294967296) 2147483648); reflexivity.
+Qed.
+
+Example diff_across_the_wrap :
+  serial_range_invalid 4294967295 0 = false /\ serial_range_invalid 0 4294967295 = true /\
+  serial_range_invalid 4294967294 7 = false /\ serial_range_invalid 5 5 = true.
 Proof. vm_compute. repeat split; reflexivity. Qed.
